@@ -231,8 +231,8 @@ theorem InvV.shut {t : Topo} (_wf : t.WF) {v : View} (h : InvV t v) {p : Nat} {x
   · rfl
   · split <;> rfl
 
-@[simp] theorem view_handleSubmit (s : State) (c : Nat) (l : List (Dest × Msg)) :
-    (handleSubmit s c l).view = s.view := rfl
+@[simp] theorem view_handleSubmit (s : State) (c k : Nat) (l : List (Dest × Msg)) :
+    (handleSubmit s c k l).view = s.view := rfl
 
 theorem view_shutdownNode (t : Topo) (s : State) (p : Nat) :
     (shutdownNode t s p).view = shutV t s.view p (fun _ => false) := rfl
@@ -289,14 +289,19 @@ theorem Inv.clientGone {t : Topo} (wf : t.WF) {s : State} (h : Inv t s) (hl : s.
 
 theorem Inv.handleRequest {t : Topo} (wf : t.WF) {s : State} (h : Inv t s) (hl : s.loopOk t 0 = true)
     (c m : Nat) (em : List (Dest × Msg)) : Inv t (handleRequest t s c m em) := by
+  have hbad : Inv t (Crash.clientGone t (s.put 0 [(.client c, .error)]) c em) :=
+    Inv.clientGone (s := s.put 0 [(Dest.client c, Msg.error)]) wf (h.congr rfl) hl c em
   unfold Crash.handleRequest
+  simp only
   split
+  · exact hbad
   · split
     · split
-      · exact h.congr rfl
-      · exact h.congr rfl
-    · exact Inv.clientGone (s := s.put 0 [(Dest.client c, Msg.error)]) wf (h.congr rfl) hl c em
-  · exact Inv.clientGone (s := s.put 0 [(Dest.client c, Msg.error)]) wf (h.congr rfl) hl c em
+      · split
+        · exact h.congr rfl
+        · exact h.congr rfl
+      · exact hbad
+    · exact hbad
 
 /-- every transition that is not an outgoing-thread reset keeps the invariant -/
 theorem step_inv {t : Topo} (wf : t.WF) {s s' : State} {l : Label} (hi : Inv t s)
